@@ -153,8 +153,8 @@ RecvResA(c, r, p, pf, appAns) ==   \* appAns: the application's answer ("FAIL" o
        IF w.ok THEN Ok(w.r, {}, {<<p.src, p.dst, p.seq, "unauth">>}) ELSE Fail(r)
   ELSE IF isRelay /\ p.dst \notin r1.cl
   THEN IF F_RELAY_DST_ERRACK
-       THEN LET w == WAck(c, r1, p, "nodst") IN
-            IF w.ok THEN Ok(w.r, {}, {<<p.src, p.dst, p.seq, "nodst">>}) ELSE Fail(r)
+       THEN LET w == WAck(c, r1, p, "unauth") IN
+            IF w.ok THEN Ok(w.r, {}, {<<p.src, p.dst, p.seq, "unauth">>}) ELSE Fail(r)
        ELSE Fail(r)
   ELSE IF isDst
   THEN IF p.port \notin BoundPorts \/ appAns = "FAIL" THEN Fail(r)
